@@ -54,15 +54,6 @@ def renderOperand : Operand → String
 def renderInstr (i : Instr) : String :=
   " ".intercalate (toString i.opcode :: i.operands.map renderOperand)
 
-/-- the operand is within the range that the encoding can represent (the hypothesis of the round-trip theorem) -/
-def operandInRange : Operand → Bool
-  | .bool _ => true
-  | .u16 v => v < 65536
-  | .u16s vs => vs.length ≤ 65535 && vs.all (· < 65536)
-  | .pathDomain v => v < 256
-  | .compositeKind v => v < 65536
-  | .upvalues us => us.length ≤ 65535 && us.all (·.1 < 65536)
-
 def encodeInstr (i : Instr) : Option Bytes :=
   match table.find? (fun s => s.opcode == i.opcode) with
   | none => none
@@ -92,7 +83,7 @@ def judge (op : List String) (go : String) : Verdict :=
           | .goPanic => "panic"
           | .diverge => "hang"
         let m := toHex enc ++ ":" ++ dec
-        let inRange := i.operands.all operandInRange && decide (pre + enc.length < 65536)
+        let inRange := i.operands.all Operand.inRange && decide (pre + enc.length < 65536)
         let tags := (if inRange then "in-range" else "out-of-range") :: tags
         -- the property is the oracle: within the representable ranges the instruction comes back,
         -- and the instruction pointer advances by exactly the encoded length
@@ -120,7 +111,7 @@ def judge (op : List String) (go : String) : Verdict :=
           | .goPanic => "panic"
           | .diverge => "hang"
         let m := toHex code ++ ":" ++ dec
-        let inRange := is.all (fun i => i.operands.all operandInRange) && decide (code.length < 65536)
+        let inRange := is.all (fun i => i.operands.all Operand.inRange) && decide (code.length < 65536)
         match go.splitOn ":" with
         | [_, gDec] =>
           if inRange && gDec != s then .violation "instr-seq-roundtrip" s tags
